@@ -1,0 +1,55 @@
+//go:build verif
+
+// Contracts for package quicutils, read by /verif/govc (comment-only file).
+
+package quicutils
+
+// C06: the Locator interface. The contract is the one its strictest implementation
+// (BuiltinBytesLocator, which has no checks of its own) needs: callers must stay within Len().
+// LinearLocator moves an internal cursor, hence `modifies *` with Len() preserved.
+
+//@ func (Locator).Len
+//@   pure
+//@   trusted
+//@   ensures result >= 0 && result <= 4611686018427387904
+
+//@ func (Locator).Range
+//@   trusted
+//@   requires 0 <= i && i <= j && j <= recv.Len()
+//@   modifies *
+//@   ensures recv.Len() == old(recv.Len())
+//@   ensures err == nil ==> len(result0) == j - i
+
+//@ func (Locator).At
+//@   trusted
+//@   requires 0 <= i && i < recv.Len()
+//@   modifies *
+//@   ensures recv.Len() == old(recv.Len())
+
+//@ func (Locator).Slice
+//@   trusted
+//@   requires 0 <= i && i <= j && j <= recv.Len()
+//@   modifies *
+//@   ensures recv.Len() == old(recv.Len())
+//@   ensures err == nil ==> result0 != nil && result0.Len() >= j - i && result0.Len() <= j - i + 1
+
+//@ func (BuiltinBytesLocator).Range
+//@   requires 0 <= i && i <= j && j <= len(l)
+//@   ensures result1 == nil && len(result0) == j - i
+
+//@ func (BuiltinBytesLocator).At
+//@   requires 0 <= i && i < len(l)
+//@   ensures result1 == nil && result0 == l[i]
+
+//@ func (BuiltinBytesLocator).Slice
+//@   requires 0 <= i && i <= j && j <= len(l)
+//@   ensures result1 == nil
+
+//@ func (BuiltinBytesLocator).Len
+//@   ensures result == len(l)
+
+//@ func BigEndianUvarint
+//@   ensures result2 == nil ==> 1 <= result1 && result1 <= 8 && result1 <= len(buf)
+//@   ensures result2 != nil ==> result1 == 0
+//@   loop 1
+//@     invariant 1 <= i && i <= length && length <= len(buf)
